@@ -42,7 +42,7 @@
 #  define V_WITNESS()  do { printf("REPLAY-END-REACHED\n"); fflush(stdout); } while (0)
 #  define V_ENTRY(name, ...)                                               \
 	struct in_##name { __VA_ARGS__ };                                  \
-	extern struct in_##name REPLAY_in_##name;                          \
+	struct in_##name REPLAY_in_##name;  /* tentative definition */    \
 	static void body_##name(struct in_##name *in);                     \
 	void name(void) {                                                  \
 		struct in_##name IN = REPLAY_in_##name;                    \
